@@ -570,7 +570,8 @@ class Message:
             if not header:
                 raise EOFError("empty read")
         except EOFError as e:
-            raise EOFError("couldn't load message header, " + e.args[0]) from None
+            # not every IO passes a message along (SocketIO raises a bare EOFError)
+            raise EOFError(f"couldn't load message header, {e}") from None
         msgtype, channel, payload = struct.unpack("!bii", header)
         return Message(msgtype, channel, io.read(payload))
 
